@@ -156,6 +156,15 @@ func (r *Result) Fault(kind string) {
 	}
 	r.Faults[kind]++
 }
+func (r *Result) FaultN(kind string, n int64) {
+	if n == 0 {
+		return
+	}
+	if r.Faults == nil {
+		r.Faults = map[string]int64{}
+	}
+	r.Faults[kind] += n
+}
 func (r *Result) Probe(name string) {
 	if r.Probes == nil {
 		r.Probes = map[string]int64{}
